@@ -11,7 +11,7 @@ from fractions import Fraction
 import framework as F
 
 ID = "C06"
-GEN = ["Infra", "Interpolation", "Conv"]
+GEN = ["Infra", "Interpolation", "Conv", "ConnectionClasses"]
 LEVEL = "proof"
 TECHNIQUE = ("Coq proof by composition: the delayed branch of LinearDense / LinearDirect / LinearLateral / Conv2D forward and the "
              "syncurrent / synspike views are modelled as selector construction -> C04 current_at / spike_at -> C05 contraction; "
